@@ -11,13 +11,12 @@ mk() { # prop name expect file sed-expr
   sed -i "$expr" "$tmp/b/$file"
   if cmp -s "$tmp/a/$file" "$tmp/b/$file"; then echo "hand mutant $name: sed changed nothing"; return; fi
   mkdir -p "mutants/$prop"
-  { echo "# expect: $expect"; echo "# hand-written mutant: $name"; (cd "$tmp" && diff -u "a/$file" "b/$file" | sed "s#^--- a/#--- a/#; s#^+++ b/#+++ b/#"); } > "mutants/$prop/hand-$name.diff" || true
+  { echo "# expect: $expect"; echo "# hand-written mutant: $name"; (cd "$tmp" && diff -u "a/$file" "b/$file" | sed -E 's/^(---|\+\+\+) ([^\t]+)\t.*/\1 \2/'); } > "mutants/$prop/hand-$name.diff" || true
 }
 mk C20 pad-space        "R-CONST/width"   lib/id62/uuid62.go 's/%022s/%22s/'
 mk C20 left-align       "R-FLOW/align"    lib/id62/uuid62.go 's/copy(into\[len(into)-len(valBytes):\], valBytes)/copy(into, valBytes)/'
 mk C20 radix            "R-CONST/base"    lib/id62/uuid62.go 's/i.SetString(s, 62)/i.SetString(s, 36)/'
 mk C20 width            "R-PANIC/D-arith" lib/id62/uuid62.go 's/len(str) > 22/len(str) > 21/'
-mk C07 drop-import      "R-EXT/G3"        internal/j5s/j5convert/fields.go '0,/\t\t\tww.file.ensureImport(bufValidateImport)\n/{/rules := &validate.FieldConstraints{}/{n;n;d}}'
 mk C07 map-no-options   "R-PANIC/P4a"     internal/j5s/j5convert/fields.go '/^\t\t\tOptions:  &descriptorpb.FieldOptions{},$/d'
 mk C08 url-base64       "R-WIRE/W2"       internal/codec/structure_encode.go 's/base64.StdEncoding.EncodeToString/base64.URLEncoding.EncodeToString/'
 mk C08 bare-int64       "R-WIRE/W1"       internal/codec/structure_encode.go 's/enc.addInt64(vt)/enc.addInt32(int32(vt))/'
@@ -34,4 +33,9 @@ mk C14 no-sort          "R-DET/N1"        internal/j5s/protobuild/packages.go 's
 mk C19 lsp-line         "R-CONST/fmtdiff" internal/bcl/genlsp/format.go 's/End:   protocol.Position{Line: uint32(diff.ToLine), Character: 0}/End:   protocol.Position{Line: uint32(diff.ToLine + 1), Character: 0}/'
 mk C11 drop-guard       "R-PANIC/P2"      internal/bcl/errpos/print.go 's/if startLine > len(lines) || startLine < 1 {/if startLine > len(lines) {/'
 mk C10 global-cache     "R-LOCK/L3"       lib/j5reflect/reflect.go 's/\tschema, err := r.schemaSet.Schema(descriptor)\n\tif err != nil {\n\t\treturn nil, err/&/'
+mk C11 comment-eof      "R-TERM/T-loop"   internal/bcl/internal/parser/lexer.go '/^func (l \*Lexer) lexBlockComment/,/^}/{/if l.ch == lexerEofChr {/,/}/d}'
+mk C19 comment-eof      "R-TERM/T-loop"   internal/bcl/internal/parser/lexer.go '/^func (l \*Lexer) lexBlockComment/,/^}/{/if l.ch == lexerEofChr {/,/}/d}'
+mk C09 string-eof       "R-TERM/T-loop"   internal/bcl/internal/parser/lexer.go '/^func (l \*Lexer) lexString/,/^}/{/if l.ch == lexerEofChr {/,/}/d}'
+mk C11 recover-no-pop   "R-TERM/T-loop"   internal/bcl/internal/parser/parser.go '/^func (ww \*Walker) recoverError/,/^}/{/^\t\tww.popToken()$/d}'
+mk C06 typename-self    "R-TERM/T-rec"    lib/j5schema/field_schema.go 's/return fmt.Sprintf("array(%s)", s.Schema.TypeName())/return fmt.Sprintf("array(%s)", s.TypeName())/'
 ls mutants/*/hand-* | wc -l
